@@ -790,7 +790,37 @@ def s13_delete(inst, rep, rid="S13"):
             if flow.entry_path(body, lambda p, it: p == pt, blocks_point=None, edge_ok=None) and \
                flow.find_path(body, tpt, lambda p, it: p == pt):
                 good = False
+        # every iteration whose node is a rule node announces it: a path round the loop that avoids delete_node must leave the
+        # `node is a Rule` switch on one of its other edges
+        skipping = None
         if good:
+            L = min(loops, key=lambda l: len(l["body"]))
+            node_adt = inst.unit.adts.get(inst.adt("Node")) or {}
+            rule_discr = [v["d"] for v in node_adt.get("variants", []) if v["n"] == "Rule"]
+            not_rule_edges = set()
+            for bb in L["body"]:
+                tt = body.blocks[bb]["t"]
+                if tt["t"] == "switch":
+                    e = pr.operand(tt["d"])
+                    if e[0] == "discr" and short(e[2]) == "Node":
+                        for tgt, lab in body.succ_edges(bb):
+                            if not (lab[0] == "v" and lab[1] in rule_discr):
+                                not_rule_edges.add((bb, tgt))
+            if not rule_discr or not not_rule_edges:
+                good = False
+            else:
+                for s0 in body.succ(L["header"]):
+                    if s0 not in L["body"]:
+                        continue
+                    pth = flow.find_path(body, (s0, -1), lambda p, it: p[0] == L["header"] and p[1] == 0, blocks_point=lambda p, it: p == pt,
+                                         edge_ok=lambda a, b2, lab: b2 in L["body"] and (a, b2) not in not_rule_edges)
+                    if pth is not None:
+                        skipping = pth
+        if good and skipping is not None:
+            rep.violation(rid, "set_state|delete-skips-rule-nodes", "%s: in set_state an iteration whose node is a rule node can go round the loop without calling "
+                          "delete_node (an extra condition on the node): a node that was announced by a created callback and is then discarded is "
+                          "not announced as deleted" % inst.label, site(body, pt), flow.describe_path(body, skipping))
+        elif good:
             rep.ok(rid, "%s set_state: delete_node loop over [state.node_count, nodes.len()) precedes truncate" % inst.label)
         else:
             rep.violation(rid, "set_state|delete-after-truncate", "%s: set_state does not announce every discarded rule node before truncating (loop bounds, order or node kind changed)" % inst.label, site(body, pt))
